@@ -17,7 +17,7 @@ def lookup (kv : List (String × String)) (k : String) : Option String :=
   (kv.find? (·.1 = k)).map (·.2)
 
 def op? : String → Option Op
-  | "sign" => some .sign | "renew" => some .renew | "rekey" => some .rekey
+  | "sign" => some .sign | "signx5c" => some .sign | "renew" => some .renew | "rekey" => some .rekey
   | "revoke" => some .revoke | "revokemtls" => some .revokeMTLS
   | "sshsign" => some .sshSign | "sshrenew" => some .sshRenew | "sshrekey" => some .sshRekey
   | "sshrevoke" => some .sshRevoke | "acme" => some .acmeFinalize | "scep" => some .scepEnroll
@@ -55,6 +55,7 @@ def whOf (t : String) (ctl : CertT) : CertT :=
   if t = "unset" then .unset
   else if t = "typed" then ctl
   else if t = "other" then (if ctl = .ssh then .x509 else .ssh)
+  else if t = "lower" then .unknown
   else .all
 
 /-- the least change of the fault function under which no enriching / authorizing webhook that is
@@ -90,7 +91,9 @@ def evalRun (kv : List (String × String)) : Option String := do
   let pend : Bool := var.endsWith "pending"
   let ident : Bool := var.endsWith "identity"
   let c0 : Cfg := { e := ne, a := na, ch := nat "ch", n := nat "n", crl := crl, ids := ids, pend := pend, identity := ident }
-  let c := c0.consulted ctl wh
+  -- a kind the code does not know ("authorizing"): never consulted, in either mode
+  let c1 : Cfg := if (lookup kv "ct").getD "all" = "kindlower" then { c0 with e := 0, a := 0 } else c0
+  let c := c1.consulted ctl wh (var.startsWith "admin")
   let d0 : Durable := {}
   let e : Env := if whdeny then standing e op c d0 8 else e
   let r := runOp e op c d0
@@ -104,7 +107,8 @@ def evalRun (kv : List (String × String)) : Option String := do
   let r2 := runOp e op c d
   let r3 := runOp okE op c r2.1.d
   let r4 := runOp okE op c (restart db r3.1.d)
-  let reuse := if op.usesToken then s!"{cls r2}/{cls r3}/{cls r4}" else "na"
+  let reuse := if op.usesToken then
+      (if var == "real" then s!"{cls r2}/{cls r3}/-" else s!"{cls r2}/{cls r3}/{cls r4}") else "na"
   -- without a database the token set lives in memory: no table to observe
   let head := s!"{clS} got={got} tok={b (d.tokenSpent && db)} stored={d.certs} data={d.datas}"
   let tail := if op = .acmeFinalize then s!" acme={d.acmeCerts} valid={b d.orderValid}" else s!" rev={b d.revoked} reuse={reuse}"
@@ -166,6 +170,10 @@ def evalSrc (fn : String) : String :=
     ",".intercalate (((callerTable one).map fun p => p.1 ++ ">" ++ p.2.1).toArray.qsort (· < ·)).toList
   | "@storers" => ";".intercalate (storerOrder.map fun p => p.1 ++ "=" ++ ">".intercalate p.2)
   | "@adminStore" => if adminStoreMethods.isEmpty then "-" else ",".intercalate adminStoreMethods
+  | "@hookControllers" =>
+    ",".intercalate ((hookControllers.map fun p => p.1 ++ "." ++ p.2.1 ++ "=" ++ p.2.2).toArray.qsort (· < ·)).toList
+  | "@routes" =>
+    ",".intercalate ((routeTable.map fun r => r.1 ++ ">" ++ r.2.1).toArray.qsort (· < ·)).toList
   | "@scepTypes" =>
     let j (l : List String) := "+".intercalate (l.toArray.qsort (· < ·)).toList
     s!"challenged={j challengedTypes} csr={j csrTypes}"
